@@ -12,8 +12,8 @@
 
 const char *verif_property = "C11";
 const char *verif_class_names[] = { "wrapped", "wrapped_twice", "multi_reclaim", "snapshot", "snapshot_after_wrap", "semaphore",
-	"near_capacity_chunk", "read_after_overwrite", "full_S_chunk", "peek", NULL };
-enum { K_WRAP, K_WRAP2, K_MULTI, K_SNAP, K_SNAPWRAP, K_SEM, K_NEAR, K_READOVER, K_FULL, K_PEEK };
+	"near_capacity_chunk", "read_after_overwrite", "full_S_chunk", "peek", "long_run_of_tiny_chunks", NULL };
+enum { K_WRAP, K_WRAP2, K_MULTI, K_SNAP, K_SNAPWRAP, K_SEM, K_NEAR, K_READOVER, K_FULL, K_PEEK, K_TINYRUN };
 const char *verif_rule =
 	"case = size S (pages +-20, tiny, arbitrary) x semaphore on/off x op list (write/alloc+commit of tiny..S bytes, destructive read, peek+reclaim, "
 	"non-destructive snapshot through qb_rb_write_to_file + qb_rb_create_from_file drained completely) from seeded random bytes; "
@@ -31,7 +31,8 @@ static unsigned nW;		/* chunks written so far */
 /* The consumed boundary c (first chunk not yet handed out or dropped) is tracked as a small set of
  * possible values: chunks with identical bytes (all zero-length chunks, for instance) make it
  * ambiguous which one a read returned, and guessing would raise false alarms later. */
-#define MAXWORLDS 64
+#define MAXWORLDS 256
+static int worlds_overflow;	/* too many byte-identical candidates to track: the case is given up as inconclusive rather than judged on a guess */
 static unsigned worlds[MAXWORLDS]; static int nworlds;
 static uint8_t *scratch, *expect;
 static size_t scratch_cap;
@@ -65,7 +66,7 @@ static unsigned hi_of(unsigned c, int64_t S)
 static void worlds_add(unsigned *set, int *n, unsigned v)
 {
 	for (int i = 0; i < *n; i++) if (set[i] == v) return;
-	if (*n < MAXWORLDS) set[(*n)++] = v;
+	if (*n < MAXWORLDS) set[(*n)++] = v; else worlds_overflow = 1;
 }
 static int worlds_has(unsigned v) { for (int i = 0; i < nworlds; i++) if (worlds[i] == v) return 1; return 0; }
 static int worlds_all(unsigned v) { for (int i = 0; i < nworlds; i++) if (worlds[i] != v) return 0; return 1; }
@@ -86,6 +87,7 @@ static int judge_read(struct verif_report *r, int64_t S, const void *got, ssize_
 			else if (late < 0) late = (int)i;
 		}
 	}
+	if (worlds_overflow) { r->inconclusive = 1; return -1; }
 	if (nn == 0) {
 		if (!any_unread) VFAIL(r, "phantom-chunk", "%s returned %zd bytes although every written chunk was already consumed", what, n);
 		else if (late >= 0) VFAIL(r, "newest-dropped", "%s returned chunk #%d: older chunks were dropped although they are among the newest ones that fit in S=%lld with 16 bytes overhead each", what, late, (long long)S);
@@ -117,7 +119,7 @@ int verif_case(const uint8_t *data, size_t size, struct verif_report *r)
 	int sem, wraps = 0, multi = 0, skipped;
 	int64_t S;
 
-	nW = 0; worlds[0] = 0; nworlds = 1;
+	nW = 0; worlds[0] = 0; nworlds = 1; worlds_overflow = 0;
 	switch (vr_range(&v, 0, 2)) {
 	case 0: flags |= QB_RB_FLAG_SHARED_PROCESS | QB_RB_FLAG_NO_SEMAPHORE; sem = 0; break;
 	case 1: sem = 1; break;		/* what the blackbox uses */
@@ -140,8 +142,14 @@ int verif_case(const uint8_t *data, size_t size, struct verif_report *r)
 	while (!vr_eof(&v) && !r->fail && nW < MAXW) {
 		unsigned op = vr_u8(&v) % 16;
 		if (op <= 8) {		/* ---- write: every write of at most S bytes must succeed */
-			int lk = vr_u8(&v) % 5, two_step = op >= 7;
+			int lk = vr_u8(&v) % 6, two_step = op >= 7;
 			int64_t len;
+			/* a long run of tiny chunks: the next big write has to push hundreds of them out at once */
+			int burst = 0;
+			if (lk == 5) { burst = 40 + 4 * (int)vr_u8(&v); lk = 0; VCLASS(r, K_TINYRUN); }
+			int in_burst = 0;
+		      again:
+			if (in_burst) { len = (int64_t)((nW * 7 + 3) % 21); goto have_len; }	/* the chunks of a run are derived, not read from the case */
 			switch (lk) {
 			case 0: len = vr_u8(&v) % 33; break;
 			case 1: len = S - (vr_u8(&v) % 21); break;
@@ -149,9 +157,10 @@ int verif_case(const uint8_t *data, size_t size, struct verif_report *r)
 			case 3: len = S / 2 + (int)(vr_u8(&v) % 41) - 20; break;
 			default: len = vr_u8(&v) % 200; break;
 			}
+		      have_len:
 			if (len < 0) len = 0;
 			if (len > S) len = S;
-			int kind = vr_u8(&v) % PAY_KINDS; uint32_t salt = vr_u8(&v);
+			int kind = in_burst ? PAY_KEYED : (int)(vr_u8(&v) % PAY_KINDS); uint32_t salt = in_burst ? (nW & 0xff) : vr_u8(&v);	/* keyed: every chunk of a run is recognisable */
 			uint32_t wp = rb->shared_hdr->write_pt, rp = rb->shared_hdr->read_pt;
 			ssize_t rc;
 			rb_fill_payload(scratch, len, nW, kind, salt);
@@ -174,6 +183,7 @@ int verif_case(const uint8_t *data, size_t size, struct verif_report *r)
 				for (unsigned i2 = (nW > 40 ? nW - 40 : 0); i2 + 1 < nW; i2++) { uint32_t cw = 2 + (W[i2].len + 3) / 4; if (cw > biggest) biggest = cw; }
 				if (moved > biggest) { multi = 1; VCLASS(r, K_MULTI); }
 			}
+			if (burst > 0 && nW < MAXW - 8) { burst--; in_burst = 1; goto again; }
 		} else if (op <= 11 || op == 13 || (op == 14 && sem)) {	/* ---- destructive read */
 			ssize_t rc = qb_rb_chunk_read(rb, scratch, scratch_cap, 0);
 			vop(r, 3, 0, 0);
